@@ -307,6 +307,8 @@ class SecopClient(ProxyClient):
     _rxthread = None
     _txthread = None
     _connthread = None
+    _reconnecting = None  # the thread running _reconnect
+    _cancel_reconnect = None  # event telling the reconnect thread to stop
     disconnect_time = 0  # time of last disconnect
     secop_version = ''
     descriptive_data = {}
@@ -359,7 +361,10 @@ class SecopClient(ProxyClient):
         with self._lock:
             if self.io:
                 return
-            self._shutdown.clear()
+            if current_thread() != self._reconnecting:
+                # a connect by the user revokes an earlier shutdown request.
+                # the reconnect thread must not do this: disconnect() waits for it to stop
+                self._shutdown.clear()
             # a disconnect might still be in progress: do not drop waiting requests silently
             self._abort_requests()
             self.txq = queue.Queue(30)
@@ -546,7 +551,7 @@ class SecopClient(ProxyClient):
                 pass
             elif self.activate:
                 self.log.info('try to reconnect to %s', self.uri)
-                self._connthread = mkthread(self._reconnect)
+                self._start_reconnect()
             else:
                 self.log.warning('%s disconnected', self.uri)
                 self._set_state(False, 'disconnected')
@@ -557,10 +562,18 @@ class SecopClient(ProxyClient):
         and trigger event when done and event is not None
         """
         self.disconnect_time = time.time()
-        self._connthread = mkthread(self._reconnect, connected_callback)
+        self._start_reconnect(connected_callback)
 
-    def _reconnect(self, connected_callback=None):
-        while not self._shutdown.is_set():
+    def _start_reconnect(self, connected_callback=None):
+        # disconnect() uses this event to stop the thread: self._shutdown alone is not
+        # enough, as a connect() from an other thread might clear it in the meantime
+        self._cancel_reconnect = cancel = Event()
+        self._connthread = mkthread(self._reconnect, connected_callback, cancel)
+
+    def _reconnect(self, connected_callback=None, cancel=None):
+        cancel = cancel or Event()
+        self._reconnecting = current_thread()
+        while not (self._shutdown.is_set() or cancel.is_set()):
             try:
                 self.connect()
                 if connected_callback:
@@ -583,6 +596,7 @@ class SecopClient(ProxyClient):
                     self._shutdown.wait(self.reconnect_timeout)
                 else:
                     self._shutdown.wait(1)
+        self._reconnecting = None
         self._connthread = None
 
     def disconnect(self, shutdown=True):
@@ -595,6 +609,9 @@ class SecopClient(ProxyClient):
                 if connthread == current_thread():
                     return
                 # wait for connection thread stopped
+                cancel = self._cancel_reconnect
+                if cancel:
+                    cancel.set()
                 connthread.join()
                 self._connthread = None
         self.disconnect_time = time.time()
